@@ -486,7 +486,7 @@ async def _connect(options: _Options, config: DefTuple[ConfigPaths],
     final = options.config.has_match_final()
 
     if canonical or final:
-        options.update(host=host, reload=True, canonical=canonical, final=final)
+        options.update(host=host, canonical=canonical, final=final)
 
     host = options.host
     port = options.port
